@@ -357,6 +357,8 @@ fn fld(j: &Value, k: &str) -> Option<String> {
 fn canon(v: &Value) -> Option<String> {
     match v {
         Value::Null => None,
+        // integers exactly (a `u64` time stamp above 2^53 is not an `f64`)
+        Value::Number(n) if n.is_u64() || n.is_i64() => Some(n.to_string()),
         Value::Number(n) => {
             let s = format!("{:.9}", n.as_f64().unwrap());
             let s = s.strip_suffix(".000000000").unwrap_or(&s).to_string();
@@ -1353,7 +1355,7 @@ pub fn run(out: &mut Out, rng: &mut Rng, thorough: bool) {
         done += n;
     }
     // all writers of the table: update_snapshot, store_history, expiry passes (op `snapw`)
-    let total = if thorough { 4000 } else { 500 };
+    let total = if thorough { 2500 } else { 500 };
     let mut done = 0;
     while done < total {
         let n = (total - done).min(500);
